@@ -11,7 +11,7 @@ from translators import tr_species
 TRANSLATORS = [tr_species.run]
 OBLIGATIONS = ["Allfed.C05." + n for n in [
     "accumulate_size_class", "accumulate_assigned_class", "spec_split", "meatMonth_eq_spec", "meatSpec_nonneg",
-    "milkMonth_linear", "round2_total_preserved", "charge_ge_eaten", "classOf_total_on_table"]]
+    "milkMonth_linear", "round2_total_preserved", "charge_ge_eaten", "classOf_total_on_table", "perHead_pos", "perHead_override_frame"]]
 LEVEL_TEXT = ("Lean 4 theorems: the five slaughter accumulators of the code equal the per-species sum at each class's per-head yield (every species counted once, "
               "given at most one chicken-type and one pig-type species and every species having a size class - decided over the species table), meat and milk are linear in "
               "slaughter counts / herd size with the stated waste factors, re-timing preserves the round-2 total (C18), the final feed charge is never below what the herds ate (C18 bump). "
@@ -41,7 +41,23 @@ def audit_run(ctx, run):
     mad = MeatAndDairy(ci)
     mad.initialize_this_country_animal_kcals(ci)
     k = mad.kcals_per_head_meat_dict
-    kvals = [k["KCALS_PER_CHICKEN"], k["KCALS_PER_PIG"], k["KCALS_PER_SMALL_ANIMAL"], k["KCALS_PER_MEDIUM_ANIMAL"], k["KCALS_PER_LARGE_ANIMAL"]]
+    kimpl = [k["KCALS_PER_CHICKEN"], k["KCALS_PER_PIG"], k["KCALS_PER_SMALL_ANIMAL"], k["KCALS_PER_MEDIUM_ANIMAL"], k["KCALS_PER_LARGE_ANIMAL"]]
+    # the per-head yields from the run's OWN inputs, computed by the model (not by the code under test)
+    ov = run.opts.get("kg_meat_per_large_animal")
+    o = wire.run_driver(["coupling.perhead %s %s %d %s" % (f2b(ci["KG_MEAT_PER_CHICKEN"]), f2b(ci["KG_MEAT_PER_PIG"]), 1 if ov is not None else 0,
+                                                          f2b(float(ov) if ov is not None else 0.0))], exe_name=DRIVER)[0]
+    kvals = Reader(o).floats()
+    case_k = {"country": run.iso, "options": run.opts}
+    if not wire.close_list(kvals, [float(v) for v in kimpl], 1e-12, 0):
+        ctx.disagree("C05:per-head-yields", case_k, [float(v) for v in kimpl], kvals)
+        ctx.violation("per-head-yield", "%s: per-head meat yields used (%r) are not carcass weight x energy density of this run's own inputs (%r)" % (
+            run.iso, [float(v) for v in kimpl], kvals), case_k)
+    # every herd of the run must be simulated under the configured breeding strategy
+    for h, a, kw in run.herds:
+        sc = kw.get("scenario", a[3] if len(a) > 3 else None)
+        if sc != ci["BREEDING_STRATEGY"]:
+            ctx.violation("herd-strategy-mismatch", "%s: a herd of this run is simulated under strategy %r, the configured one is %r" % (
+                run.iso, sc, ci["BREEDING_STRATEGY"]), dict(case_k, herd_index=[x[0] for x in run.herds].index(h)))
     # herds in construction order: round 1, (round 2), (round 3 if round 2 produced feed)
     herd_of_round = {}
     hs = [h for h, a, kw in run.herds]
@@ -141,7 +157,10 @@ def explore(ctx, ps):
 
 
 def correspondence(ctx):
-    ps = list(lpcheck.PRESETS_QUICK) + [("IND", dict(meat_strategy="feed_only_ruminants")), ("NZL", dict(cull="dont_eat_culled"))]
+    ps = list(lpcheck.PRESETS_QUICK) + [("IND", dict(meat_strategy="feed_only_ruminants")), ("NZL", dict(cull="dont_eat_culled")),
+                                        # pastoral herds; an override of the large-animal carcass weight followed by a run without it
+                                        ("MNG", dict(NMONTHS=48)), ("USA", dict(NMONTHS=48, kg_meat_per_large_animal=150, meat_strategy="baseline_breeding")),
+                                        ("USA", dict(NMONTHS=48, meat_strategy="baseline_breeding")), ("KEN", dict(NMONTHS=48))]
     isos = sorted(pipeline.country_rows())
     for _ in range(ctx.budget(2, 60)):
         ps.append(lpcheck.random_preset(ctx.rng, isos))
